@@ -4,6 +4,7 @@ import FractopoModel.Generated.AzimuthPost
 import FractopoModel.Generated.IsAzimuthClose
 import FractopoModel.Generated.DefaultAzimuthSets
 import FractopoModel.Generated.CalcBins
+import FractopoModel.Generated.AzimuthBins
 import FractopoModel.Spec.Azimuth
 import FractopoModel.Generated.NetworkInit
 import FractopoModel.Generated.LineDataCache
@@ -234,6 +235,161 @@ theorem C15_locs (n : Int) (hn : 0 < n) :
     unfold pyArange
     rw [List.getElem?_map, List.getElem?_range (by rw [e]; exact hi)]
     rfl
+
+
+/-! ## histogram (regenerated `determine_azimuth_bins`): every weight lands in exactly one bin -/
+
+theorem binSum_cons (v w : Rat) (ps : List (Rat × Rat)) (b : Rat × Rat × Bool) :
+    pyBinSum ((v, w) :: ps) b = (if pyInBin v b then w else 0) + pyBinSum ps b := by
+  unfold pyBinSum
+  cases h : pyInBin v b <;> simp [List.filter_cons, h]
+  grind
+
+theorem sum_map_zero {α : Type} (l : List α) : (l.map (fun _ => (0 : Rat))).sum = 0 := by
+  induction l with
+  | nil => rfl
+  | cons _ _ ih => simp only [List.map_cons, List.sum_cons, ih]; grind
+
+theorem hist_cons (v w : Rat) (ps : List (Rat × Rat)) (bins : List (Rat × Rat × Bool)) :
+    (bins.map (pyBinSum ((v, w) :: ps))).sum
+      = w * ((bins.countP (pyInBin v) : Nat) : Rat) + (bins.map (pyBinSum ps)).sum := by
+  induction bins with
+  | nil => simp; grind
+  | cons b bs ih =>
+    simp only [List.map_cons, List.sum_cons, List.countP_cons, binSum_cons]
+    rw [ih]
+    cases h : pyInBin v b <;> simp <;> grind
+
+theorem bins_lo_ge (a : Rat) (l : List Rat) (h : List.Pairwise (· < ·) (a :: l)) :
+    ∀ b ∈ pyHistBins (a :: l), a ≤ b.1 := by
+  induction l generalizing a with
+  | nil => simp [pyHistBins]
+  | cons x xs ih =>
+    cases xs with
+    | nil => simp [pyHistBins]; 
+    | cons y ys =>
+      intro b hb
+      simp only [pyHistBins, List.mem_cons] at hb
+      rcases hb with rfl | hb
+      · exact Rat.le_refl
+      · have hp := List.pairwise_cons.mp h
+        have hax : a < x := hp.1 x (by simp)
+        have := ih x hp.2 b (by simpa [pyHistBins] using hb)
+        grind
+
+theorem count_one (v a : Rat) (l : List Rat) (hne : l ≠ []) (h : List.Pairwise (· < ·) (a :: l))
+    (hlo : a ≤ v) (hhi : v ≤ (a :: l).getLast (by simp)) :
+    (pyHistBins (a :: l)).countP (pyInBin v) = 1 := by
+  induction l generalizing a with
+  | nil => exact absurd rfl hne
+  | cons x xs ih =>
+    cases xs with
+    | nil =>
+      simp [pyHistBins, pyInBin, List.countP_cons] at *
+      grind
+    | cons y ys =>
+      have hp := List.pairwise_cons.mp h
+      simp only [pyHistBins, List.countP_cons]
+      by_cases hvx : v < x
+      · -- in the first bin, in no later one
+        have hnone : (pyHistBins (x :: y :: ys)).countP (pyInBin v) = 0 := by
+          rw [List.countP_eq_zero]
+          intro b hb
+          have := bins_lo_ge x (y :: ys) hp.2 b hb
+          simp [pyInBin]; grind
+        rw [hnone]; simp [pyInBin, hlo, hvx]
+      · have hvx : x ≤ v := Rat.not_lt.mp hvx
+        have := ih x (by simp) hp.2 hvx (by simpa using hhi)
+        rw [this]; simp [pyInBin]; grind
+
+theorem hist_conserve (ps : List (Rat × Rat)) (a : Rat) (l : List Rat) (hne : l ≠ []) (h : List.Pairwise (· < ·) (a :: l))
+    (hin : ∀ p ∈ ps, a ≤ p.1 ∧ p.1 ≤ (a :: l).getLast (by simp)) :
+    ((pyHistBins (a :: l)).map (pyBinSum ps)).sum = (ps.map (·.2)).sum := by
+  induction ps with
+  | nil => exact sum_map_zero _
+  | cons p ps ih =>
+    obtain ⟨v, w⟩ := p
+    rw [hist_cons, count_one v a l hne h (hin (v, w) (by simp)).1 (hin (v, w) (by simp)).2,
+      ih (fun p hp => hin p (by simp [hp]))]
+    simp
+
+theorem histBins_length (l : List Rat) : (pyHistBins l).length = l.length - 1 := by
+  fun_induction pyHistBins l <;> simp_all
+
+theorem arange_pairwise (start step : Rat) (hs : 0 < step) (k : Nat) :
+    List.Pairwise (· < ·) ((List.range k).map (fun (i : Nat) => start + (i : Rat) * step)) := by
+  rw [List.pairwise_map]
+  refine List.Pairwise.imp ?_ List.pairwise_lt_range
+  intro i j hij
+  have h1 : (i : Rat) < (j : Rat) := Rat.natCast_lt_natCast.mpr hij
+  have h2 := Rat.mul_lt_mul_of_pos_right h1 hs
+  grind
+
+theorem sum_replicate_one (n : Nat) : (List.replicate n (1 : Rat)).sum = (n : Rat) := by
+  induction n with
+  | zero => simp
+  | succ k ih => rw [List.replicate_succ, List.sum_cons, ih]; push_cast; grind
+
+theorem bins_core (w : Rat) (hw : 0 < w) (az ws : List Rat) (hin : ∀ a ∈ az, 0 ≤ a ∧ a ≤ 180) (hlen : ws.length = az.length) :
+    (pyHistogram az (Gen.calc_bins w true).1 ws).sum = ws.sum ∧ (pyHistogram az (Gen.calc_bins w true).1 ws).length = ((180 / w).ceil).toNat := by
+  obtain ⟨hn, hbw, hl, hget, hlast⟩ := C15_bins w hw
+  generalize hnn : (180 / w).ceil = n at hn hbw hl hget hlast
+  have hbwpos : 0 < 180 / (n : Rat) := by
+    have : (180 : Rat) / (n : Rat) = 180 * (n : Rat)⁻¹ := Rat.div_def _ _
+    rw [this]; exact Rat.mul_pos (by decide +kernel) (Rat.inv_pos.mpr (by exact_mod_cast hn))
+  have hpw : List.Pairwise (· < ·) (Gen.calc_bins w true).1 := by
+    show List.Pairwise (· < ·) (pyArange 0 (180 + 180 / (((180 / w).ceil : Int) : Rat) * (1/100)) (180 / (((180 / w).ceil : Int) : Rat)))
+    rw [hnn]
+    exact arange_pairwise 0 _ hbwpos _
+  generalize (Gen.calc_bins w true).1 = edges at hl hget hlast hpw
+  constructor
+  · match edges, hl, hget, hlast, hpw with
+    | [], hl, _, _, _ => simp at hl
+    | a :: l, hl, hget, hlast, hpw =>
+      have hne : l ≠ [] := by
+        intro h; subst h; simp at hl; omega
+      have ha : a = 0 := by
+        have := hget 0 (Nat.zero_le _); simp at this; exact this
+      have hlastv : (a :: l).getLast (by simp) = 180 := by
+        rw [List.getLast_eq_getElem]
+        have : (a :: l).length - 1 = n.toNat := by rw [hl]; omega
+        have h2 := hlast
+        rw [← this] at h2
+        rw [List.getElem?_eq_getElem (by simp)] at h2
+        exact Option.some.inj h2
+      show ((pyHistBins (a :: l)).map (pyBinSum (az.zip ws))).sum = _
+      rw [hist_conserve _ a l hne hpw]
+      · rw [List.map_snd_zip (by rw [hlen]; exact Nat.le_refl _)]
+      · intro p hp
+        have := hin p.1 (List.of_mem_zip hp).1
+        rw [hlastv, ha]; exact this
+  · show (List.map _ (pyHistBins edges)).length = _
+    rw [List.length_map, histBins_length, hl]; omega
+
+/-- **Rose bins conserve the weights (regenerated `determine_azimuth_bins`, all sample sizes, all multipliers).** For every sample of azimuths in `[0, 180]`, whatever
+the ideal width the sample size yields (any positive value) and whatever the multiplier: there is one height and one bar location per bin, `⌈180 / w⌉` of them, and the heights
+sum to the total of the length weights — to the NUMBER of lines when no lengths are given. (`np.histogram` is the prelude's exact `pyHistogram`: bins `[e_i, e_{i+1})`, the last closed.) -/
+theorem C15_generated_bin_heights_sum (ideal_ : Nat → Bool → Rat) (az : List Rat) (len : Option (List Rat)) (m : Rat)
+    (hw : 0 < ideal_ az.length true * m) (hin : ∀ a ∈ az, 0 ≤ a ∧ a ≤ 180) (hlen : ∀ l, len = some l → l.length = az.length) :
+    let r := Gen.determine_azimuth_bins ideal_ az len m true
+    let n := (180 / (ideal_ az.length true * m)).ceil
+    r.2.2.sum = (match len with | none => (az.length : Rat) | some l => l.sum) ∧
+      r.2.2.length = n.toNat ∧ r.2.1.length = n.toNat ∧ r.1 = 180 / (n : Rat) := by
+  intro r n
+  obtain ⟨hn, hbw, _, _, _⟩ := C15_bins (ideal_ az.length true * m) hw
+  have hlocs : (Gen.calc_locs (Gen.calc_bins (ideal_ az.length true * m) true).2 true).length = n.toNat := (C15_locs n hn).1
+  cases len with
+  | none =>
+    have hc := bins_core _ hw az (List.replicate az.length 1) hin (by simp)
+    rw [sum_replicate_one] at hc
+    exact ⟨hc.1, hc.2, hlocs, hbw⟩
+  | some ws =>
+    have hc := bins_core _ hw az ws hin (hlen ws rfl)
+    exact ⟨hc.1, hc.2, hlocs, hbw⟩
+
+/-- non-vacuity: the doctest of `determine_azimuth_bins` (4 azimuths, ideal width 90 / ∛4 ≈ 56.7 → 4 bins of 45°) -/
+example : Gen.determine_azimuth_bins (fun _ _ => 567/10) [25, 50, 145, 160] (some [5, 5, 10, 60]) 1 true = (45, [45/2, 135/2, 225/2, 315/2], [5, 5, 0, 70]) := by
+  decide +kernel
 
 example : (containing 30 true ["a", "b"] [(160, 40), (50, 100)]).length ≤ 1 := by decide +kernel
 
